@@ -341,3 +341,138 @@ Proof.
   - unfold kept. rewrite skipn_length. lia.
   - intros r k Ir Ik. apply (sorted_split files (length files - S n) r k (listing_sorted d1) Ir Ik).
 Qed.
+
+(* ------------------------------------------------------------------ unique names (a real directory) *)
+Definition names (d : dir) : list name := map e_name d.
+
+Lemma has_name_names n d : has_name n d = true <-> In n (names d).
+Proof.
+  rewrite has_name_in. unfold names. rewrite in_map_iff. split; intros (e & A & B); exists e; auto.
+Qed.
+
+Lemma has_name_false n d : has_name n d = false <-> ~ In n (names d).
+Proof.
+  rewrite <- has_name_names. destruct (has_name n d); split; intros H; auto; try discriminate.
+  exfalso; apply H; auto.
+Qed.
+
+Lemma nodup_snoc {A} (a : list A) x : NoDup a -> ~ In x a -> NoDup (a ++ [x]).
+Proof.
+  induction a as [|y r]; simpl; intros H N.
+  - repeat constructor; auto.
+  - inversion H; subst. constructor.
+    + intros I. apply in_app_or in I as [I|[I|[]]]; auto.
+    + apply IHr; auto.
+Qed.
+
+Lemma names_app a b : names (a ++ b) = names a ++ names b.
+Proof. apply map_app. Qed.
+
+Lemma del_names_sub n x d : In n (names (del_name x d)) -> In n (names d).
+Proof.
+  induction d as [|a r]; simpl; auto. destruct (name_eqb x (e_name a)); simpl; intros H; auto.
+  destruct H; auto.
+Qed.
+
+Lemma del_nodup x d : NoDup (names d) -> NoDup (names (del_name x d)).
+Proof.
+  induction d as [|a r]; simpl; intros H; auto. inversion H; subst.
+  destruct (name_eqb x (e_name a)); simpl; auto. constructor; auto.
+  intros I. apply del_names_sub in I. contradiction.
+Qed.
+
+Lemma open_nodup d fn : NoDup (names d) -> NoDup (names (open_file d fn)).
+Proof.
+  intros H. unfold open_file.
+  assert (NoDup (names (del_name cur_name d ++ [cur_entry]))) as H1.
+  { rewrite names_app. simpl. apply nodup_snoc; [apply del_nodup; auto|].
+    apply has_name_false. rewrite has_del. rewrite name_eqb_refl. auto. }
+  fold cur_entry. destruct (has_name fn (del_name cur_name d ++ [cur_entry])) eqn:E; auto.
+  rewrite names_app. simpl. apply nodup_snoc; auto. apply has_name_false; auto.
+Qed.
+
+Lemma filter_names_sub f n (d : dir) : In n (names (filter f d)) -> In n (names d).
+Proof.
+  induction d as [|a r]; simpl; auto. destruct (f a); simpl; intros H; auto. destruct H; auto.
+Qed.
+
+Lemma filter_nodup f (d : dir) : NoDup (names d) -> NoDup (names (filter f d)).
+Proof.
+  induction d as [|a r]; simpl; intros H; auto. inversion H; subst.
+  destruct (f a); simpl; auto. constructor; auto. intros I. apply filter_names_sub in I. contradiction.
+Qed.
+
+Lemma insert_names n e l : In n (names (insert e l)) <-> n = e_name e \/ In n (names l).
+Proof.
+  unfold names. rewrite !in_map_iff. split.
+  - intros (x & A & B). apply insert_in in B as [B|B]; subst; auto. right. exists x; auto.
+  - intros [H|(x & A & B)].
+    + exists e. split; auto. apply insert_in; auto.
+    + exists x. split; auto. apply insert_in; auto.
+Qed.
+
+Lemma insert_nodup e l : NoDup (names l) -> ~ In (e_name e) (names l) -> NoDup (names (insert e l)).
+Proof.
+  induction l as [|a r]; simpl; intros H N.
+  - constructor; auto.
+  - inversion H; subst. destruct (entry_leb e a); simpl.
+    + constructor; auto.
+    + constructor.
+      * intros I. apply insert_names in I as [I|I]; [apply N; left; auto|auto].
+      * apply IHr; auto.
+Qed.
+
+Lemma sort_names n l : In n (names (sort l)) <-> In n (names l).
+Proof.
+  unfold names. rewrite !in_map_iff. split; intros (x & A & B); exists x; split; auto; apply sort_in; auto.
+Qed.
+
+Lemma sort_nodup l : NoDup (names l) -> NoDup (names (sort l)).
+Proof.
+  induction l as [|a r]; simpl; intros H; auto. inversion H; subst.
+  apply insert_nodup; auto. rewrite sort_names. auto.
+Qed.
+
+Lemma listing_nodup d : NoDup (names d) -> NoDup (names (listing d)).
+Proof. intros H. unfold listing. apply sort_nodup. apply filter_nodup. auto. Qed.
+
+Lemma nodup_app_disjoint {A} (a b : list A) x : NoDup (a ++ b) -> In x a -> In x b -> False.
+Proof.
+  induction a as [|y r]; simpl; intros H Ia Ib; auto. inversion H; subst. destruct Ia as [Ia|Ia].
+  - subst. apply H2. apply in_or_app; auto.
+  - apply IHr; auto.
+Qed.
+
+(* in a directory with unique names an entry of the tail of the listing has no namesake in the head *)
+Lemma kept_not_removed (files : list entry) k e :
+  NoDup (names files) -> In e (skipn k files) -> has_name (e_name e) (firstn k files) = false.
+Proof.
+  intros ND I. apply has_name_false. intros I2.
+  rewrite <- (firstn_skipn k files) in ND. rewrite names_app in ND.
+  eapply nodup_app_disjoint; eauto. unfold names. apply in_map; auto.
+Qed.
+
+(* the repaired slice keeps every entry of the tail, in particular the file being written *)
+Lemma head_keeps prefix n d date :
+  let d1 := open_file d (log_name prefix date) in
+  let files := listing d1 in
+  (forall e, In e d1 -> e_dir e = false) ->
+  NoDup (names d) ->
+  (forall e, In e (skipn (length files - S n) files) ->
+             has_name (e_name e) (fst (do_rollover SliceHead prefix (S n) d date)) = true) /\
+  ((forall e, In e d1 -> e_name e <> cur_name -> name_leb (e_name e) (log_name prefix date) = true) ->
+   has_name (log_name prefix date) (fst (do_rollover SliceHead prefix (S n) d date)) = true).
+Proof.
+  intros d1 files ND U.
+  destruct (head_retention prefix n d date ND) as (_ & H & _ & _). fold d1 files in H.
+  assert (NoDup (names files)) as NF by (apply listing_nodup; apply open_nodup; auto).
+  assert (forall e, In e (skipn (length files - S n) files) ->
+             has_name (e_name e) (fst (do_rollover SliceHead prefix (S n) d date)) = true) as K.
+  { intros e I. rewrite H. rewrite (kept_not_removed files _ e NF I).
+    rewrite andb_true_r. apply has_name_in. exists e. split; auto.
+    apply in_skipn in I. apply listing_in in I as [I _]. auto. }
+  split; auto.
+  intros NW.
+  pose proof (written_in_tail prefix date d NW n) as T. apply has_name_in in T as (e & I & N).
+  rewrite <- N. apply K. auto.
+Qed.
